@@ -52,7 +52,7 @@ func scriptFromJSON(m map[string]any) *BatchScript {
 	return s
 }
 
-var batchShapes = []string{"results", "results", "anys", "ptrs", "maps", "strings", "ints"}
+var batchShapes = []string{"results", "results", "anys", "ptrs", "maps", "strings", "ints", "u8s"}
 
 func genBatch(r *rand.Rand, mode string) (BatchCfg, *BatchScript) {
 	c := BatchCfg{N: 1 + r.Intn(4), Items: r.Intn(13), C: r.Intn(6), Acts: []int{0, 1, 2, 6, 7, 8}, Outs: []string{"ok", "err"},
@@ -169,6 +169,17 @@ func genBatch(r *rand.Rand, mode string) (BatchCfg, *BatchScript) {
 		c.Items = 1500
 		c.N, c.Fb, c.StopMode, c.Sched, c.Via, c.Shape = 1, false, true, "bigstop", "builder", "results"
 		pFail = 0
+	case "longbatch": // more than a thousand short items on one or two workers: whatever a worker does "every so many tasks"
+		c.C = 1 + r.Intn(2)
+		c.Items = 1100 + r.Intn(40)
+		c.N, c.Fb, c.StopMode, c.Sched, c.Via, c.Shape = 1, false, false, "free", "builder", "results"
+		pFail = 0
+	case "bigcancel": // a batch of more items than any small chunk or inline table holds, cancelled from inside one item
+		c.C = []int{1, 2, 4}[r.Intn(3)]
+		c.Items = []int{80, 128, 200, 65}[r.Intn(4)]
+		c.N, c.Fb, c.StopMode, c.Sched, c.Via, c.Shape = 1, false, r.Intn(3) == 0, "free0", "builder", "results"
+		c.Cancel, c.CtxKind = true, []string{"cancel", "cause", "deadline"}[r.Intn(3)]
+		pFail = 0
 	case "storm": // many always-failing items on many workers: per-item state must not be shared
 		c.Items, c.C, c.N, c.Sched, c.Via = 64, 8, 2, "tight", "builder"
 		c.Fb = r.Intn(2) == 0
@@ -228,6 +239,9 @@ func genBatch(r *rand.Rand, mode string) (BatchCfg, *BatchScript) {
 	}
 	if mode == "bigstop" {
 		s.Items[1].Execs[0].Out = "err"
+	}
+	if mode == "bigcancel" {
+		s.Items[2+r.Intn(c.Items/8)].Execs[0].Cancel = true // an early item cancels: most of the batch is still ahead
 	}
 	if mode == "stoprace" {
 		s.Items[3].Execs[0].Out = "err"
@@ -381,6 +395,12 @@ func init() {
 			}
 			r := rand.New(rand.NewSource(seed*7919 + int64(mi)))
 			n := count
+			if mode == "longbatch" || mode == "bigcancel" {
+				n = 4
+				if count > 500 {
+					n = 24
+				}
+			}
 			if mode == "bigstop" { // large scenarios: a handful is enough
 				n = 6
 				if bc := opts["bigcount"]; bc != "" {
